@@ -116,6 +116,47 @@ void harness(void) {
 	}
 	VWITNESS();
 }
+#elif MODE == 2
+/* ---- MODE 2: release of the transmission-layer state with activity pending ("deferred messages pending, queues
+ * non-empty"): real bidib_node_state_table_free and the three uplink queue frees on a node table with outstanding
+ * requests, held messages and stall waiters and on non-empty uplink queues: everything is released exactly once
+ * (CBMC double-free checks + --memory-leak-check) ---- */
+#include "verif_glib.h"
+#include "src/transmission/bidib_transmission_node_states.c"
+#include "src/transmission/bidib_transmission_receive.c"
+volatile bool bidib_running, bidib_discard_rx, bidib_lowlevel_debug_mode, bidib_seq_num_enabled;
+pthread_rwlock_t bidib_trains_rwlock, bidib_boards_rwlock;
+pthread_mutex_t trackstate_accessories_mutex, trackstate_peripherals_mutex, trackstate_segments_mutex,
+	trackstate_reversers_mutex, trackstate_trains_mutex, trackstate_boosters_mutex,
+	trackstate_track_outputs_mutex;
+void bidib_add_to_buffer(const uint8_t *const m) { (void)m; }
+void bidib_flush(void) { }
+t_bidib_board *bidib_state_get_board_ref_by_nodeaddr(t_bidib_node_address n) { (void)n; return NULL; }
+void harness(void) {
+	bidib_node_state_table_init();
+	bidib_set_read_src(NULL);
+	uint8_t a1[4] = {1, 0, 0, 0}, a2[4] = {1, 2, 0, 0};
+	verif_now = 5;
+	/* node 1: budget exhausted by NREQ requests with answers pending, then NHELD more are held back */
+	uint8_t t = ND_u8("type"); VASSUME(t < 0x80 && bidib_response_info[t][1] >= 24);
+	for (int i = 0; i < 2 + NHELD; i++) { uint8_t msg[4] = {3, 1, (uint8_t)i, t}; (void)bidib_node_try_send(a1, t, msg, 1); }
+	/* node 1.2 waits for stalled node 1 */
+	bidib_node_update_stall(a1, 1);
+	{ uint8_t msg[5] = {4, 1, 2, 9, MSG_SYS_GET_MAGIC}; (void)bidib_node_try_send(a2, MSG_SYS_GET_MAGIC, msg, 2); }
+	/* unread uplink traffic in all three queues */
+	bidib_lowlevel_debug_mode = false;
+	uint8_t addr[4] = {0, 0, 0, 0};
+	{ uint8_t *m = malloc(5); m[0] = 4; m[1] = 0; m[2] = 1; m[3] = MSG_SYS_PONG; m[4] = 7; bidib_handle_received_message(m, MSG_SYS_PONG, addr, 1, 0); }
+	{ uint8_t *m = malloc(5); m[0] = 4; m[1] = 0; m[2] = 2; m[3] = MSG_NODE_NA; m[4] = 7; bidib_handle_received_message(m, MSG_NODE_NA, addr, 2, 0); }
+	{ uint8_t *m = malloc(5); m[0] = 4; m[1] = 0; m[2] = 3; m[3] = MSG_NODETAB_COUNT; m[4] = 1; bidib_handle_received_message(m, MSG_NODETAB_COUNT, addr, 3, 0); }
+	t_bidib_node_state *s1 = g_hash_table_lookup(node_state_table, a1);
+	VASSERT(g_queue_get_length(s1->message_queue) >= NHELD && g_queue_get_length(s1->response_queue) >= 1, "pre-state: outstanding and held messages present");
+	bidib_running = false;
+	bidib_node_state_table_free();
+	bidib_uplink_queue_free(); bidib_uplink_error_queue_free(); bidib_uplink_intern_queue_free();
+	VASSERT(verif_all_free(), "locks released");
+	VWITNESS();
+}
 #else
 /* ---- MODE 1: the real zero-speed step of the shutdown ---- */
 #define SB_B2 1
